@@ -1137,11 +1137,28 @@ def inline_worker(tree, entry, anchor):
         return False
 
     def calls_anchor(fn):
+        if callable(anchor):
+            return any(isinstance(n, ast.Call) and anchor(n) for n in ast.walk(fn))
         return any(isinstance(n, ast.Call) and isinstance(n.func, ast.Name) and n.func.id == anchor for n in ast.walk(fn))
     changed = False
     for _ in range(3):
         if calls_anchor(ent):
             break
+        # `recv.append(worker(..))` / `f(worker(..))` as a statement of its own: the worker's value gets a name first
+        for body, i, s in list(_own_statements(ent)):
+            if isinstance(s, ast.Expr) and isinstance(s.value, ast.Call) and not getattr(s, '_hoisted_worker', False):
+                outer = s.value
+                inner = [a_ for a_ in outer.args if isinstance(a_, ast.Call) and isinstance(a_.func, ast.Name) and a_.func.id in fns and a_.func.id != entry and calls_anchor(fns[a_.func.id])]
+                before = outer.args[:outer.args.index(inner[0])] if inner else []
+                if len(inner) == 1 and all(isinstance(b_, (ast.Name, ast.Constant)) for b_ in before) and isinstance(outer.func, (ast.Name, ast.Attribute)) \
+                        and (isinstance(outer.func, ast.Name) or isinstance(outer.func.value, ast.Name)):
+                    tmp = '%s__value' % inner[0].func.id.strip('_')
+                    pre_ = ast.copy_location(ast.Assign(targets=[_name(tmp, ast.Store())], value=inner[0]), s)
+                    outer.args[outer.args.index(inner[0])] = ast.copy_location(_name(tmp), inner[0])
+                    s._hoisted_worker = True
+                    body.insert(i, pre_)
+                    ast.fix_missing_locations(pre_)
+                    break
         sites = []
         for body, i, s in _own_statements(ent):
             c = s.value if isinstance(s, (ast.Assign, ast.Expr)) else None
